@@ -135,7 +135,9 @@ fn obs_clean(d: &Decision) -> Result<bool, String> {
         Some(Some(v)) => format!("<tl until=\"{v}\">\nDECOY();\n</tl>\n"),
         _ => "<tl until=\"2000-01-01 00:00:00\">\nDECOY();\n</tl>\n".to_string(),
     };
-    let src = format!("a();\n{decoy}<tl{attr}>\nPROBE();\n</tl>\n{decoy}b();\n");
+    // and an element with an unparseable `to` in front (it stays; it must not disturb what follows)
+    let bad = "<tl to=\"never\">\nBADTO();\n</tl>\n";
+    let src = format!("a();\n{bad}{decoy}<tl{attr}>\nPROBE();\n</tl>\n{decoy}b();\n");
     let cfg = Cfg {
         now: d.now.clone(),
         off: d.off.clone(),
@@ -144,10 +146,13 @@ fn obs_clean(d: &Decision) -> Result<bool, String> {
     match run_clean(&src, "<", ">", &cfg) {
         Err(p) => Err(format!("panic {}", p.site)),
         Ok(out) => {
-            if out.matches("DECOY").count() != 2 || out.matches("<tl until").count() != 2 {
+            if out.matches("DECOY").count() != 2 || out.matches("<tl until").count() != 2 || !out.contains("BADTO") {
                 return Err(format!("an element without `to` next to the probe was touched: {out:?}"));
             }
-            let removed = !out.contains("PROBE") && !out.contains("<tl to") && !out.contains("<tl>") && out.matches("</tl>").count() == 2;
+            let removed = !out.contains("PROBE")
+                && out.matches("<tl to").count() == 1
+                && !out.contains("<tl>")
+                && out.matches("</tl>").count() == 3;
             let untouched = out == src;
             if removed == untouched {
                 return Err(format!("probe neither removed nor untouched: {out:?}"));
